@@ -140,7 +140,7 @@ CHECKS = {
         "[start-8,end-8) of a compressed row and [start,end) of an expanded row select the same characters; a missing "
         "trailer or an unconfigured table is the library error (Props/C18.lean). Tied to /repo by synthetic files with "
         "random indexes, interleaved rows, all configured tables and generated layouts, both representations, 2 codecs, 2 "
-        "formats, CSV output cell by cell. In addition a SOURCE TIE: harness/pytrans.py translates the current Python text of IpmParamReader._get_param_field (the column slicing, with the class-level slice constants) into Lean on every run and lean/Cardutil/SrcTie/Param.lean proves it equal to the model's decodeSlice for expanded and compressed rows and restates the compressed = expanded clause for the translated method (C18_source_compressed_eq_expanded); the body of the `while True:` loop of IpmParamReader.__next__ (what happens to one record: table test through the index, the three fixed entries, the column loop calling the translated _get_param_field) is translated as a function of the record, and lean/Cardutil/SrcTie/ParamRow.lean proves it equal to the model's rowOf, its iteration over any records equal to the model's rowsOf (C18_source_rows, C18_source_only_requested_table), and that every packaged table layout meets the hypotheses (packaged_layouts_ok, on the configuration re-translated each run); when the source changes so that this no longer checks, the check runs its thorough generators before answering (the correspondence remains the deciding tie).",
+        "formats, CSV output cell by cell. In addition a SOURCE TIE: harness/pytrans.py translates the current Python text of IpmParamReader._get_param_field (the column slicing, with the class-level slice constants) into Lean on every run and lean/Cardutil/SrcTie/Param.lean proves it equal to the model's decodeSlice for expanded and compressed rows and restates the compressed = expanded clause for the translated method (C18_source_compressed_eq_expanded); the body of the `while True:` loop of IpmParamReader.__next__ (what happens to one record: table test through the index, the three fixed entries, the column loop calling the translated _get_param_field) is translated as a function of the record, and lean/Cardutil/SrcTie/ParamRow.lean proves it equal to the model's rowOf, its iteration over any records equal to the model's rowsOf (C18_source_rows, C18_source_only_requested_table), and that every packaged table layout meets the hypotheses (packaged_layouts_ok, on the configuration re-translated each run); one round of the index-loading loop of IpmParamReader.__init__ is translated as a function of the record and the loop's state, and lean/Cardutil/SrcTie/ParamIndex.lean proves its iteration equal to the model's scanIndex up to lookups (scan_index_eq), the refusal clause (C18_source_missing_trailer: no trailer, the flag the constructor tests stays False) and both phases together against the model's read (C18_source_two_phases); when the source changes so that this no longer checks, the check runs its thorough generators before answering (the correspondence remains the deciding tie).",
         "Trusted: Lean kernel; standard axioms; hand-written model of IpmParamReader validated by correspondence; csv module; for the source tie harness/pytrans.py and Py/Rt.lean.",
         "DESIGN.md §8 C18"),
     'C01': (
